@@ -21,7 +21,9 @@ RULE = ('INTEGER: all 65 536 values (exhaustive, both tiers); LONG: powers '
         'neighbours (+-1 ulp) of every rounding boundary d.5 x 10^k at the 7 '
         '/ 15-17 digit positions, seeded bit patterns (finite only); both '
         'signs.  Each value is printed by PRINT x, STR$(x), PRINT -x and read '
-        'back by VAL, READ and INPUT.  Non-trivial: the value has >= 2 '
+        'back by VAL, READ and INPUT.  Whole numbers around every power of '
+        'two and ten are also printed as LONG, SINGLE and DOUBLE side by '
+        'side in one program, in three orders.  Non-trivial: the value has >= 2 '
         'significant digits or needs exponent form.  Distinct by (type, '
         'value).')
 ASSUMPTIONS = [
@@ -154,7 +156,77 @@ def items(cfg):
         vs = values_for(t, cfg['tier'], cfg.get('seed', 1))
         for k in range(0, len(vs), cfg['batch']):
             out.append((t, vs[k:k + cfg['batch']]))
+    # the same whole numbers printed as LONG, SINGLE and DOUBLE in one
+    # program, in changing order (the text depends on the type)
+    xs = []
+    for k in range(0, 31):
+        for d in (-1, 0, 1):
+            xs.append(2 ** k + d)
+    for k in range(0, 10):
+        for d in (-1, 0, 1):
+            xs.append(10 ** k + d)
+    xs = sorted({x for x in xs if 0 <= x <= 2147483647})
+    xs += [-x for x in xs if x]
+    for k in range(0, len(xs), 64):
+        out.append(('x', xs[k:k + 64]))
     return out
+
+
+def cross_type_batch(values, cfg):
+    """-> failures for one batch of whole numbers printed under three
+    types."""
+    n = len(values)
+    data = ''.join('DATA %s\n' % ', '.join(str(v) for v in values[k:k + 8])
+                   for k in range(0, n, 8))
+    prog = ('FOR i& = 1 TO %d\nREAD d#\nl& = d#\ns! = d#\n'
+            'PRINT l&\nPRINT s!\nPRINT d#\nPRINT s!; l&; d#\n'
+            'PRINT d#; l&; s!\nNEXT\n%s' % (n, data))
+    c = X.compile_one(prog, 0, False)
+    if c.kind != 'accepted':
+        return [('driver_not_accepted', {'got': repr(c)})]
+    r = X.execute(c.module, X.Script(), tick_budget=cfg['tick_budget'])
+    prints = [e[1] for e in r.events if e[0] == 'print']
+    failures = []
+    for k, v in enumerate(values):
+        grp = prints[5 * k:5 * k + 5]
+        if len(grp) < 5:
+            failures.append(('cross_type:driver_stopped', {
+                'value': v, 'outcome': r.outcome[:2]}))
+            break
+        texts = {}
+        for t, line in zip('&!#', grp[:3]):
+            texts[t] = line[:-3] if line.endswith(' \r\n') else line
+        vt = {'&': v, '!': f32(float(v)), '#': float(v)}
+        for t in '&!#':
+            numeral = texts[t]
+            if t == '&':
+                if numeral != (' ' if v >= 0 else '-') + str(abs(v)):
+                    failures.append(('cross_type:integer_text', {
+                        'value': v, 'text': numeral}))
+                continue
+            m = NUMERAL.match(numeral)
+            if not m:
+                failures.append(('cross_type:not_a_numeral:' + t, {
+                    'value': v, 'text': numeral}))
+                continue
+            nd = sig_digits(m.group(2), m.group(3))
+            tv, unit = text_value(m)
+            mant, _ = math.frexp(vt[t])
+            if nd > DIGITS[t] or (abs(tv - Fraction(vt[t])) > unit / 2 and
+                                  abs(mant) != 0.5):
+                failures.append(('cross_type:text:' + t, {
+                    'value': v, 'text': numeral}))
+        # the combined lines show the same numerals in the other orders
+        want4 = texts['!'] + ' ' + texts['&'] + ' ' + texts['#'] + ' \r\n'
+        want5 = texts['#'] + ' ' + texts['&'] + ' ' + texts['!'] + ' \r\n'
+        if grp[3] != want4 or grp[4] != want5:
+            failures.append(('cross_type:text_depends_on_order', {
+                'value': v, 'single': texts['!'], 'long': texts['&'],
+                'double': texts['#'], 'line4': grp[3], 'line5': grp[4]}))
+    seen = {}
+    for b, d in failures:
+        seen.setdefault(b, d)
+    return list(seen.items())
 
 
 def data_text(t, v):
@@ -360,6 +432,16 @@ def run_batch(t, values, cfg):
 
 def check_item(item, cfg):
     t, values = item
+    if t == 'x':
+        fs = cross_type_batch(values, cfg)
+        return {'key': None, 'nontrivial': False,
+                'nontrivial_keys': ['x:%d' % v for v in values],
+                'class_counts': {'cross_type_values': len(values)},
+                'failures': [{'bucket': b, 'detail': d,
+                              'case': {'type': 'x', 'values': [
+                                  str(d.get('value'))]}}
+                             for b, d in fs],
+                'extra_evals': len(values) - 1}
     failures, nt_keys, counts = run_batch(t, values, cfg)
     fl = [{'bucket': b, 'detail': d,
            'case': {'type': t, 'values': [repr(v) for v in values]
@@ -374,6 +456,10 @@ def check_item(item, cfg):
 
 def replay(obj, cfg):
     t = obj['type']
+    if t == 'x':
+        vals = [int(s) for s in obj['values'] if s not in (None, 'None')]
+        return {'failures': [{'bucket': b, 'detail': d, 'case': obj}
+                             for b, d in cross_type_batch(vals, cfg)]}
     vals = []
     for s in obj['values']:
         if s is None:
